@@ -1004,6 +1004,17 @@ def api_vs_cli(ctx, triples, what):
         elif o["out"] != want:
             ctx.violation(f"{what}: the bytes returned by the library API differ from the command line's", {"input": {"patches": c["patches"], "src": c["src"]}, "api": o["out"][-600:], "cli": want[-600:]})
 
+def cli_print_triples(ctx, cases, flags=()):
+    """(patches, src, bytes printed by `gopatch --print-only`) for the cases the command line patches successfully"""
+    def one(c):
+        d = ctx.scratch("cpt")
+        cl.write_tree(d, {"a.go": c["src"], "p.patch": c["patches"][0]})
+        code, out, err = cl.gopatch(ctx.gopatch, d, ["-p", "p.patch", "--print-only"] + list(flags) + ["a.go"])
+        shutil.rmtree(d, ignore_errors=True)
+        return (c["patches"], c["src"], out.decode("utf-8", "surrogateescape")) if code == 0 else None
+    with ThreadPoolExecutor(max_workers=12) as ex:
+        return [t for t in ex.map(one, [c for c in cases if len(c.get("patches", [])) == 1]) if t]
+
 @prop("C12")
 def c12(ctx):
     triples = []
@@ -1034,6 +1045,14 @@ def c12(ctx):
         multi = [t for t in ex.map(cli_bytes, chains[: (50 if ctx.tier == "quick" else 1500)] + chains[-1:]) if t]
     ctx.count("multi_change_api_vs_cli", len(multi))
     api_vs_cli(ctx, multi, "C12 (several changes in one patch)")
+    # import edits: whether an import is still used is decided from the parsed file (local variables and parameters that
+    # shadow the package name included) - by the library exactly as by the command line
+    imp = gen_cases(ctx, "c11", 120 if ctx.tier == "quick" else 3000, ctx.seed + 31, golden=False)
+    imp.append({"id": "shadow", "patches": ["@@\n@@\n-import \"net/url\"\n+import \"example.com/safeurl\"\n\n-url.Parse(...)\n+safeurl.Parse(...)\n"],
+                "src": "package a\n\nimport \"net/url\"\n\nfunc f(s string) string {\n\turl, err := url.Parse(s)\n\tif err != nil {\n\t\treturn \"\"\n\t}\n\treturn url.Hostname()\n}\n"})
+    trip = cli_print_triples(ctx, imp)
+    ctx.count("import_edit_api_vs_cli", len(trip))
+    api_vs_cli(ctx, trip, "C12 (import edits)")
 
 def c12_descriptions(ctx):
     """descriptions only for files to which a described change applied: the description of every change comes from the
@@ -1170,6 +1189,21 @@ def c18(ctx):
                           note=f"header={name} expect_generated={isgen}")
             sc.expect = isgen
             scen.append(sc)
+    # the library has no such flag: it patches generated files like any other, exactly as the command line does without the flag
+    libcases = []
+    for bi, base in enumerate(bases[:3]):
+        if len(base.get("patches", [])) != 1:
+            continue
+        for name, hdr, isgen in headers:
+            if hdr is not None:
+                src = base["src"]
+                mm = re.search(r"^package ", src, re.M)
+                if hdr and not hdr.endswith("\n\n") and mm:
+                    src = src[mm.start():]
+                libcases.append({"id": f"lib{bi}-{name}", "patches": base["patches"], "src": hdr + src})
+    trip = cli_print_triples(ctx, libcases)
+    ctx.count("library_on_generated_files", len(trip))
+    api_vs_cli(ctx, trip, "C18 (without the flag the markers have no effect: the library API)")
     optsets = [["sg"], ["sg", "print"], ["sg", "diff"], ["print"], [], ["sg", "v"]]
     ctx.extra["exhaustive"] = True
     ctx.extra["header_shapes"] = [h[0] for h in headers]
